@@ -107,6 +107,54 @@ def r3_counters(facts, rep):
 
 
 # ---- R4: the reader as a transducer, inductive check --------------------------------------------------------------
+def BS(p):
+    return Agg("bslice", None, None, None, (Const(p),))
+
+
+def furthest(store):
+    """The furthest position a byte slice / slice iterator of the store has reached (None when the text is not held as one)."""
+    best = None
+
+    def walk(v):
+        nonlocal best
+        if isinstance(v, Agg):
+            if v.kind in ("bslice", "bsiter"):
+                best = v.field(0).v if best is None else max(best, v.field(0).v)
+            else:
+                for f in v.fields:
+                    walk(f)
+    for k, v in store.items():
+        if isinstance(k, tuple) and len(k) == 2 and isinstance(k[0], int):
+            walk(v)
+    return best
+
+
+def consumed_of(store):
+    """What the segment consumed: bytes taken from the iterator, or the prefix up to the furthest slice held."""
+    c = tuple(store.get(("consumed",), ()))
+    f = furthest(store)
+    if f is not None and f > len(c):
+        s0 = c + tuple(store.get(("stream",), ()))
+        return tuple(s0[:f])
+    return c
+
+
+def rebase(st):
+    """A new segment starts where the text now stands: the furthest slice becomes position 0, older ones are dropped."""
+    f = furthest(st)
+    if f is None:
+        return st
+
+    def mv(v):
+        if isinstance(v, Agg):
+            if v.kind in ("bslice", "bsiter"):
+                q = v.field(0).v - f
+                return Agg(v.kind, None, None, None, (Const(q),)) if q >= 0 else TOP
+            return Agg(v.kind, v.path, v.vi, v.vname, [mv(x) for x in v.fields])
+        return v
+    return {k: (mv(v) if isinstance(k, tuple) and len(k) == 2 and isinstance(k[0], int) else v) for k, v in st.items()}
+
+
 class ReaderDomain(TermDomain):
     """The text is a scripted byte stream; every way of looking at / taking the next byte reads that script."""
 
@@ -123,6 +171,73 @@ class ReaderDomain(TermDomain):
     @staticmethod
     def stream(store):
         return store.get(("stream",), ())
+
+    # ---- the same text seen as a byte slice (`&[u8]` walked with slice patterns, `first`, `split_first`, `iter`) ----------
+    # BS(p): the text from position p, counted from where the current segment began; the script of the segment is
+    # consumed ++ stream.  Nothing is "consumed" by looking at a slice: how far the reader got is the furthest slice it holds.
+    @staticmethod
+    def script(store):
+        return tuple(store.get(("consumed",), ())) + tuple(store.get(("stream",), ()))
+
+    def _slice(self, it, store, v):
+        for _ in range(4):
+            if isinstance(v, Ref):
+                v = it.read_ref(store, v)
+        return v if isinstance(v, Agg) and v.kind in ("bslice", "bsiter") else None
+
+    def _len(self, store, p):
+        s0 = self.script(store)
+        if "EOF" in s0:
+            return Const(max(s0.index("EOF") - p, 0))
+        return Agg("blen", None, None, None, (Const(max(len(s0) - p, 0)),))
+
+    def _byte(self, store, q):
+        s0 = self.script(store)
+        if q >= len(s0):
+            raise core.Undecided("the reader looks further ahead than one step allows")
+        return s0[q]
+
+    def rvalue_hook(self, it, store, frame, rv):
+        if rv["k"] == "unop" and rv["op"] == "PtrMetadata":
+            v = self._slice(it, store, it.operand(store, frame, rv["a"]))
+            if v is not None and v.kind == "bslice":
+                return self._len(store, v.field(0).v)
+        return None
+
+    def slice_proj(self, it, store, v, what, nums):
+        v = self._slice(it, store, v)
+        if v is None or v.kind != "bslice":
+            return None
+        p = v.field(0).v
+        if what == "index" and nums.get("from_end") == "false":
+            b = self._byte(store, p + int(nums["offset"]))
+            if b == "EOF":
+                raise core.Undecided("a byte past the end of the text is read")
+            return Const(b)
+        if what == "subslice" and nums.get("from_end") == "true" and int(nums.get("to", "0")) == 0:
+            return BS(p + int(nums["from"]))
+        return None
+
+    def binop(self, op, a, b):
+        for x, y, flip in ((a, b, False), (b, a, True)):
+            if isinstance(x, Agg) and x.kind == "blen" and isinstance(y, Const):
+                n, k = x.field(0).v, y.v
+                o = {"Lt": "Gt", "Gt": "Lt", "Le": "Ge", "Ge": "Le"}.get(op, op) if flip else op
+                # the length is at least n
+                if o == "Ge" and k <= n:
+                    return Const(True)
+                if o == "Gt" and k < n:
+                    return Const(True)
+                if o == "Lt" and k <= n:
+                    return Const(False)
+                if o == "Le" and k < n:
+                    return Const(False)
+                if o == "Eq" and k < n:
+                    return Const(False)
+                if o == "Ne" and k < n:
+                    return Const(True)
+                raise core.Undecided("the reader asks for more of the text than one step allows")
+        return super().binop(op, a, b)
 
     def _is_bytes(self, it, store, a):
         v = a
@@ -187,7 +302,46 @@ class ReaderDomain(TermDomain):
                 return outs
             if m in ("into_iter", "by_ref", "peekable", "fuse"):
                 return [(args[0] if isinstance(args[0], Ref) and m == "by_ref" else Sym("bytes"), store)]
-        if name in ("core::str::<impl str>::bytes", "core::str::<impl str>::as_bytes") or (m == "peekable" and args and it.read_ref(store, args[0]) == Sym("bytes")):
+        if name == "core::str::<impl str>::as_bytes":
+            return [(BS(len(store.get(("consumed",), ()))), store)]
+        sl = self._slice(it, store, args[0]) if args else None
+        if sl is not None:
+            p = sl.field(0).v
+            if sl.kind == "bslice":
+                if m == "len" and "slice" in name:
+                    return [(self._len(store, p), store)]
+                if m == "is_empty":
+                    return [(Const(self._byte(store, p) == "EOF"), store)]
+                if m in ("first", "split_first", "get") and "slice" in name:
+                    if m == "get":
+                        k_ = it.read_ref(store, args[1])
+                        if not (isinstance(k_, Const) and isinstance(k_.v, int)):
+                            return None
+                        p += k_.v
+                    b = self._byte(store, p)
+                    if b == "EOF":
+                        return [(NONE, store)]
+                    st, ref = it.fresh_slot(store, Const(b))
+                    if m == "split_first":
+                        return [(some(Agg("tuple", None, None, None, (ref, BS(p + 1)))), st)]
+                    return [(some(ref), st)]
+                if m in ("iter", "into_iter") or name.endswith("IntoIterator>::into_iter"):
+                    return [(Agg("bsiter", None, None, None, (Const(p),)), store)]
+                if name.endswith("as std::ops::Deref>::deref") or m in ("as_ref", "borrow"):
+                    return [(sl, store)]
+            else:
+                if m == "next" and ("Iterator>::next" in name or name == "std::iter::Iterator::next"):
+                    b = self._byte(store, p)
+                    if b == "EOF":
+                        return [(NONE, store)]
+                    st, ref = it.fresh_slot(store, Const(b))
+                    st = it.write_ref(st, args[0], Agg("bsiter", None, None, None, (Const(p + 1),))) if isinstance(args[0], Ref) else st
+                    return [(some(ref), st)]
+                if m in ("into_iter", "by_ref", "copied", "cloned") or name.endswith("IntoIterator>::into_iter"):
+                    return [(args[0] if isinstance(args[0], Ref) and m == "by_ref" else sl, store)]
+                if m == "as_slice":
+                    return [(BS(p), store)]
+        if name in ("core::str::<impl str>::bytes",) or (m == "peekable" and args and it.read_ref(store, args[0]) == Sym("bytes")):
             return [(Sym("bytes"), store)]
         if name in ("core::str::<impl str>::bytes",) or (name.endswith("IntoIterator>::into_iter") and args and it.read_ref(store, args[0]) == Sym("bytes")):
             return [(Sym("bytes"), store)]
@@ -302,7 +456,7 @@ def r4_reader(facts, rep, tier="quick"):
         return tuple(induct.flag_of(ind.read(seg, frame, l)) for l in fl)
 
     for first, sg in sorted(entry.items(), key=lambda x: str(x[0])):
-        cons = sg.store.get(("consumed",), ())
+        cons = consumed_of(sg.store)
         sgn = ind.read(sg, F1, LS)
         good = ind.read(sg, F1, LN) == K(0) and dval(ind.read(sg, F1, LD)) == Const(0) and sgn == Const(first == 45) \
             and cons == ((first,) if first in (45, 43) else ()) and flagstate(sg, flags, F1) == flagstate(main, flags, F1)
@@ -324,7 +478,7 @@ def r4_reader(facts, rep, tier="quick"):
             st[(F1, LD)] = D
         st[("consumed",)] = ()
         st[("pc",)] = ()
-        return st
+        return rebase(st)
 
     # ---- mantissa loop: bisimulation over (code flags, (after point, N known zero)) ---------------------------------------
     init_fs = flagstate(main, flags, F1)
@@ -356,7 +510,7 @@ def r4_reader(facts, rep, tier="quick"):
                 digit = 48 <= b <= 57
                 dlt = b - 48
                 for sg in segs:
-                    cons = sg.store.get(("consumed",), ())
+                    cons = consumed_of(sg.store)
                     if sg.kind == "stop" and sg.loop == MAIN:
                         n2, d2 = ind.read(sg, F1, LN), dval(ind.read(sg, F1, LD))
                         fs2 = flagstate(sg, flags, F1)
@@ -462,7 +616,7 @@ def r4_reader(facts, rep, tier="quick"):
         st[(F2, LES)] = Sym("eneg") if eneg is None else Const(eneg)
         st[("consumed",)] = ()
         st[("pc",)] = ()
-        return st
+        return rebase(st)
 
     seen2 = set()
     work = [(flagstate(ex, flags2, F2), True)]
@@ -493,8 +647,8 @@ def r4_reader(facts, rep, tier="quick"):
                     e2 = dval(ind.read(sg, F2, LE))
                     if not same(e2, T("+", T("*", Ee, TEN), K(dlt)), ezero=ezero):
                         bad.append("exponent digit '%s': exponent becomes %r, expected E*10+%d" % (chr(b), e2, dlt))
-                    if not same(ind.read(sg, F1, LN), N) or sg.store.get(("consumed",), ()) != (b,):
-                        bad.append("exponent digit changes the mantissa or consumes %s" % (sg.store.get(("consumed",), ()),))
+                    if not same(ind.read(sg, F1, LN), N) or consumed_of(sg.store) != (b,):
+                        bad.append("exponent digit changes the mantissa or consumes %s" % (consumed_of(sg.store),))
                     fs2 = flagstate(sg, flags2, F2)
                     if None in fs2:
                         bad.append("exponent flags %r" % (fs2,))
